@@ -279,7 +279,7 @@ func (w *World) checkGlobalNonNil() error {
 						return fmt.Errorf("global-nonnil %s: assigned in %s", key, fn)
 					}
 					switch v := st.Val.(type) {
-					case *ssa.MakeMap, *ssa.Alloc, *ssa.MakeChan, *ssa.MakeSlice:
+					case *ssa.MakeMap, *ssa.Alloc, *ssa.MakeChan, *ssa.MakeSlice, *ssa.Function:
 						stores++
 					case *ssa.Call:
 						// a constructor of this repository whose every return value is an allocation
